@@ -22,6 +22,10 @@ def obligations(tier):
     # rows partly flattened by the category dictionary (value <= -200: its probability is 0 in float32)
     for flat in ([(0, 1)], [(0, 0), (0, 3)]):
         obs.append(S.SOb('C16.beam[G6,n=1,tags=4,prune=4,beta=1e-05,flattened=%s]' % [c for _, c in flat], S.G6(), 1, pruning=4, penalty='sym', use_beta=True, beta=1e-5, lo=-100, flat=flat))
+    # the only root-capable tag is flattened: the sentence must fail; and an n-best list must not be filled up with flattened tags
+    g6r = dict(S.G6(), name='G6r', roots=[1])
+    obs.append(S.SOb('C16.beam[G6r (only tag 1 is a root),n=1,tags=4,prune=4,beta=1e-05,flattened=[1]]', g6r, 1, pruning=4, penalty='sym', use_beta=True, beta=1e-5, lo=-100, flat=[(0, 1)]))
+    obs.append(S.SOb('C16.beam[G6,n=1,tags=4,prune=4,beta=1e-05,flattened=[1,3],nbest=3]', S.G6(), 1, pruning=4, penalty='sym', use_beta=True, beta=1e-5, lo=-100, flat=[(0, 1), (0, 3)], nbest=3))
     obs.append(S.SOb('C16.beam[G6,n=1,tags=4,prune=2,beta=0.05]', S.G6(), 1, pruning=2, penalty='sym', use_beta=True, beta=0.05, lo=-100))
     obs.append(S.SOb('C16.beam[G5,n=2,tags=2,prune=1,filter=off]', S.G5(True), 2, pruning=1, penalty='0'))
     obs.append(S.SOb('C16.beam[G5,n=2,tags=2,prune=2,beta=0.5]', S.G5(True), 2, pruning=2, penalty='0', use_beta=True, beta=0.5, lo=-100))
